@@ -230,10 +230,59 @@ typedef struct
  * per pixel or per vector of 2 / 4 / 8 / 16 pixels.  pfmt says where the alpha field is (for a source that is
  * also read through a mask image over the same bits it is the format of that mask); formats without an alpha
  * field get all-zero / all-one pixels for the levels 0 / 255. */
+/* band selector 4 of `pat`: value runs.  Every row is cut into runs whose lengths are drawn from 1, 3, 4, 5, 8, 16 (so
+ * that runs start at every alignment within a vector and are shorter than, equal to and longer than one vector of 4 /
+ * 8 / 16 pixels); every run is one value class: fully transparent (whole pixel zero, or alpha zero with colour),
+ * fully opaque, the neighbours 1 / 254, one partial level, or left random.  These are the inputs on which routines
+ * with a "this block is transparent: skip it" / "opaque: copy it" shortcut take the shortcut for some blocks and the
+ * ordinary path for the pixels that follow in the same row. */
+static void
+overlay_value_runs (img_t *im, pixman_format_code_t pfmt, vrng_t *rng)
+{
+    static const int lens[] = { 1, 3, 4, 5, 8, 16, 4, 8 };
+    /* classes: 0 zero pixel, 1 alpha zero, 2 opaque, 3 level 1, 4 level 254, 5 partial, 6 random */
+    static const int classes[] = { 0, 0, 0, 1, 2, 2, 2, 3, 4, 5, 5, 6 };
+    int bpp = PIXMAN_FORMAT_BPP (pfmt), A = PIXMAN_FORMAT_A (pfmt), type = PIXMAN_FORMAT_TYPE (pfmt);
+    int rgb = PIXMAN_FORMAT_R (pfmt) + PIXMAN_FORMAT_G (pfmt) + PIXMAN_FORMAT_B (pfmt);
+    int ashift = (type == PIXMAN_TYPE_BGRA || type == PIXMAN_TYPE_RGBA) ? bpp - (A + rgb) : rgb;
+    int x, y;
+    for (y = 0; y < im->h; y++)
+    {
+	int left = 0, cls = 6, lev = 0;
+	for (x = 0; x < im->w; x++)
+	{
+	    uint8_t *p = (uint8_t *)im->bits + y * im->stride + x * (bpp / 8);
+	    uint32_t px = 0, all = bpp == 32 ? 0xffffffffu : ((1u << bpp) - 1);
+	    if (left == 0)
+	    {
+		left = VRNG_PICK (rng, lens);
+		cls = VRNG_PICK (rng, classes);
+		lev = cls <= 1 ? 0 : cls == 2 ? 255 : cls == 3 ? 1 : cls == 4 ? 254 : 2 + (int)vrng_below (rng, 252);
+	    }
+	    left--;
+	    if (cls == 6)
+		continue;
+	    memcpy (&px, p, bpp / 8);
+	    if (cls == 0)
+		px = 0;
+	    else if (A > 0)
+	    {
+		uint32_t am = ((1u << A) - 1) << ashift;
+		px = (px & ~am) | (((uint32_t)lev >> (8 - A)) << ashift);
+	    }
+	    else if (lev == 0)
+		px = 0;
+	    else if (lev == 255)
+		px = all;
+	    memcpy (p, &px, bpp / 8);
+	}
+    }
+}
+
 static void
 overlay_runs (img_t *im, pixman_format_code_t pfmt, int pat, vrng_t *rng)
 {
-    int L = pat & 0xff, band_sel = pat >> 8;     /* band_sel 0: by the seed; 1 transparent, 2 opaque, 3 both */
+    int L = pat & 0xff, band_sel = pat >> 8;     /* band_sel 0: by the seed; 1 transparent, 2 opaque, 3 both; 4 value runs */
     static const int low[] = { 0, 0, 1, 1, 1, 2 }, high[] = { 255, 255, 254, 254, 254, 253 };
     int bpp = PIXMAN_FORMAT_BPP (pfmt), A = PIXMAN_FORMAT_A (pfmt), type = PIXMAN_FORMAT_TYPE (pfmt);
     int rgb = PIXMAN_FORMAT_R (pfmt) + PIXMAN_FORMAT_G (pfmt) + PIXMAN_FORMAT_B (pfmt);
@@ -241,6 +290,11 @@ overlay_runs (img_t *im, pixman_format_code_t pfmt, int pat, vrng_t *rng)
     int band, phase, x, y;
     if (L <= 0 || !(bpp == 8 || bpp == 16 || bpp == 32) || A > 8)
 	return;
+    if (band_sel == 4)
+    {
+	overlay_value_runs (im, pfmt, rng);
+	return;
+    }
     band = (int)vrng_below (rng, 3);       /* 0 around transparent, 1 around opaque, 2 both */
     if (band_sel >= 1 && band_sel <= 3)
 	band = band_sel - 1;
@@ -469,6 +523,261 @@ plain_write (void *p, uint32_t v, int size)
     }
 }
 
+/* ---- C16: the other drawing entry points of the public API on thread-private objects (kinds L, G, R) ---- */
+#include <time.h>
+
+/* a write accessor that takes its time (a short sleep every 16th store): a call that draws many boxes through it stays
+ * inside the library for milliseconds, so that calls of different threads overlap in time whatever the scheduler does */
+static __thread unsigned slow_count;
+static void
+slow_write (void *p, uint32_t v, int size)
+{
+    plain_write (p, v, size);
+    if ((++slow_count & 15) == 0)
+    {
+	struct timespec ts = { 0, 20000 };
+	nanosleep (&ts, NULL);
+    }
+}
+
+/* bytes of an image's buffer, undefined bits of the format cleared, comma separated (no brackets) */
+static void
+log_masked (FILE *o, const img_t *d, int first)
+{
+    int bpp = PIXMAN_FORMAT_BPP (d->fmt);
+    uint32_t um = undefined_mask (d->fmt);
+    int x, y, i, n = d->stride * d->h;
+    uint8_t *copy = malloc (n + 4);
+    memcpy (copy, d->bits, n);
+    if (bpp == 32 || bpp == 16 || bpp == 8)
+	for (y = 0; y < d->h; y++)
+	    for (x = 0; x < d->w; x++)
+	    {
+		uint8_t *p = copy + y * d->stride + x * (bpp / 8);
+		if (bpp == 32) { uint32_t v; memcpy (&v, p, 4); v &= um; memcpy (p, &v, 4); }
+		else if (bpp == 16) { uint16_t v; memcpy (&v, p, 2); v &= (uint16_t)um; memcpy (p, &v, 2); }
+		else *p &= (uint8_t)um;
+	    }
+    for (i = 0; i < n; i++)
+	fprintf (o, (first && i == 0) ? "%d" : ",%d", copy[i]);
+    free (copy);
+}
+
+static void
+stripe_clip (pixman_image_t *img, int dw, int dh, int phase)
+{
+    pixman_region32_t clip;
+    pixman_box32_t bx[64];
+    int nb = 0, x;
+    for (x = phase; x < dw && nb < 62; x += 7)
+    {
+	bx[nb].x1 = x; bx[nb].x2 = x + 5 < dw ? x + 5 : dw; bx[nb].y1 = 0; bx[nb].y2 = dh > 2 ? dh - 1 : dh;
+	nb++;
+    }
+    pixman_region32_init_rects (&clip, bx, nb);
+    pixman_image_set_clip_region32 (img, &clip);
+    pixman_region32_fini (&clip);
+}
+
+static void
+random_color (pixman_color_t *c, vrng_t *rng, int opaque)
+{
+    c->alpha = opaque ? 0xffff : (uint16_t)(0x1000 + vrng_below (rng, 0xe000));
+    c->red = (uint16_t)vrng_below (rng, (uint32_t)c->alpha + 1);
+    c->green = (uint16_t)vrng_below (rng, (uint32_t)c->alpha + 1);
+    c->blue = (uint16_t)vrng_below (rng, (uint32_t)c->alpha + 1);
+}
+
+static void
+random_traps (pixman_trapezoid_t *tr, int n, int dw, int dh, vrng_t *rng)
+{
+    int i;
+    for (i = 0; i < n; i++)
+    {
+	pixman_fixed_t x0 = (pixman_fixed_t)(vrng_below (rng, dw * 65536 + 1)), x1 = (pixman_fixed_t)(vrng_below (rng, dw * 65536 + 1));
+	tr[i].top = (pixman_fixed_t)vrng_below (rng, 65536 * 2);
+	tr[i].bottom = tr[i].top + 1 + (pixman_fixed_t)vrng_below (rng, dh * 65536);
+	tr[i].left.p1.x = x0 < x1 ? x0 : x1; tr[i].left.p1.y = tr[i].top;
+	tr[i].left.p2.x = tr[i].left.p1.x + (pixman_fixed_t)vrng_below (rng, 131072) - 65536; tr[i].left.p2.y = tr[i].bottom;
+	tr[i].right.p1.x = (x0 < x1 ? x1 : x0) + 1; tr[i].right.p1.y = tr[i].top;
+	tr[i].right.p2.x = tr[i].right.p1.x + (pixman_fixed_t)vrng_below (rng, 131072) - 65536; tr[i].right.p2.y = tr[i].bottom;
+    }
+}
+
+/* every thread has its own glyph cache; the picture of glyph (font, id) is a function of (font, id) only, so that a
+ * request's result does not depend on which requests the thread executed before it */
+static __thread pixman_glyph_cache_t *gcache;
+#define NGLYPH_IDS 24
+
+static const void *
+get_glyph (int font, int id)
+{
+    void *fk = (void *)(uintptr_t)(font + 1), *gk = (void *)(uintptr_t)(id + 1);
+    const void *g = pixman_glyph_cache_lookup (gcache, fk, gk);
+    if (!g)
+    {
+	img_t gi;
+	vrng_t gr;
+	vrng_seed (&gr, (uint64_t)(font * 1000 + id + 77));
+	make_bits (&gi, font ? PIXMAN_a8r8g8b8 : PIXMAN_a8, 3 + id % 5, 2 + id % 3, 0, &gr, 0);
+	if (font)
+	    pixman_image_set_component_alpha (gi.img, 1);
+	g = pixman_glyph_cache_insert (gcache, fk, gk, id % 3, id % 2, gi.img);
+	pixman_image_unref (gi.img);
+	free (gi.bits);
+    }
+    return g;
+}
+
+static void
+run_api_request (int idx)
+{
+    req_t *r = &reqs[idx];
+    FILE *o = tout ? tout : vt_out;
+    vrng_t rng;
+    long long *f = r->f;
+    int i;
+
+    if (r->kind == 'L')
+    {
+	/* L: api op dfmt dw dh nbox seed amap acc opaque dclip
+	 * pixman_image_fill_boxes (api 0) / pixman_image_fill_rectangles (api 1) with nbox boxes inside a private
+	 * destination; amap: the destination has a (private) a8 alpha map; acc: 1 plain, 2 slow accessors on the
+	 * destination; dclip: client clip of several boxes on the destination */
+	int api = (int)f[0], op = (int)f[1], dw = (int)f[3], dh = (int)f[4], nb = (int)f[5], amap = (int)f[7], acc = (int)f[8];
+	int opaque = (int)f[9], dclip = (int)f[10], ret;
+	pixman_format_code_t dfmt = (pixman_format_code_t)f[2];
+	img_t d, am;
+	pixman_color_t c;
+	pixman_box32_t bx[256];
+	pixman_rectangle16_t rc[256];
+	vrng_seed (&rng, (uint64_t)f[6]);
+	memset (&am, 0, sizeof am);
+	make_bits (&d, dfmt, dw, dh, (int)vrng_below (&rng, 2), &rng, 0);
+	if (amap)
+	{
+	    make_bits (&am, PIXMAN_a8, dw, dh, 0, &rng, 0);
+	    pixman_image_set_alpha_map (d.img, am.img, 0, 0);
+	}
+	random_color (&c, &rng, opaque);
+	if (nb > 256) nb = 256;
+	for (i = 0; i < nb; i++)
+	{
+	    int x1 = (int)vrng_below (&rng, dw), y1 = (int)vrng_below (&rng, dh);
+	    int mw = dw - x1 < 9 ? dw - x1 : 9, mh = dh - y1 < 3 ? dh - y1 : 3;
+	    bx[i].x1 = x1; bx[i].y1 = y1;
+	    bx[i].x2 = x1 + 1 + (int)vrng_below (&rng, mw); bx[i].y2 = y1 + 1 + (int)vrng_below (&rng, mh);
+	    rc[i].x = (int16_t)x1; rc[i].y = (int16_t)y1;
+	    rc[i].width = (uint16_t)(bx[i].x2 - x1); rc[i].height = (uint16_t)(bx[i].y2 - y1);
+	}
+	if (dclip)
+	    stripe_clip (d.img, dw, dh, dclip & 1);
+	if (acc == 1) pixman_image_set_accessors (d.img, plain_read, plain_write);
+	else if (acc == 2) pixman_image_set_accessors (d.img, plain_read, slow_write);
+	if (api)
+	    ret = pixman_image_fill_rectangles ((pixman_op_t)op, d.img, &c, nb, rc);
+	else
+	    ret = pixman_image_fill_boxes ((pixman_op_t)op, d.img, &c, nb, bx);
+	fprintf (o, "{\"e\":\"Res\",\"tid\":%d,\"seq\":%d,\"req\":%d,\"kind\":\"C\",\"ret\":%s,\"bytes\":[", tid, seqno++, idx,
+		 ret ? "true" : "false");
+	log_masked (o, &d, 1);
+	if (amap)
+	    log_masked (o, &am, 0);
+	fputs ("]}\n", o);
+	pixman_image_unref (d.img);
+	if (am.img) pixman_image_unref (am.img);
+	free (d.bits); free (am.bits);
+    }
+    else if (r->kind == 'G')
+    {
+	/* G: op dfmt dw dh nglyph seed maskfmt font opaque
+	 * pixman_composite_glyphs (maskfmt != 0) / pixman_composite_glyphs_no_mask with the thread's own glyph cache */
+	int op = (int)f[0], dw = (int)f[2], dh = (int)f[3], n = (int)f[4], font = (int)f[7] ? 1 : 0;
+	pixman_format_code_t dfmt = (pixman_format_code_t)f[1], maskfmt = (pixman_format_code_t)f[6];
+	img_t d;
+	pixman_color_t c;
+	pixman_image_t *sol;
+	pixman_glyph_t gl[64];
+	vrng_seed (&rng, (uint64_t)f[5]);
+	make_bits (&d, dfmt, dw, dh, 0, &rng, 0);
+	random_color (&c, &rng, (int)f[8]);
+	sol = pixman_image_create_solid_fill (&c);
+	if (!gcache)
+	    gcache = pixman_glyph_cache_create ();
+	if (n > 64) n = 64;
+	pixman_glyph_cache_freeze (gcache);
+	for (i = 0; i < n; i++)
+	{
+	    gl[i].x = (int)vrng_below (&rng, dw + 4) - 2;
+	    gl[i].y = (int)vrng_below (&rng, dh + 2) - 1;
+	    gl[i].glyph = get_glyph (font, (int)vrng_below (&rng, NGLYPH_IDS));
+	}
+	if (maskfmt)
+	    pixman_composite_glyphs ((pixman_op_t)op, sol, d.img, maskfmt, 0, 0, 0, 0, 0, 0, dw, dh, gcache, n, gl);
+	else
+	    pixman_composite_glyphs_no_mask ((pixman_op_t)op, sol, d.img, 0, 0, 0, 0, gcache, n, gl);
+	pixman_glyph_cache_thaw (gcache);
+	fprintf (o, "{\"e\":\"Res\",\"tid\":%d,\"seq\":%d,\"req\":%d,\"kind\":\"C\",\"ret\":true,\"bytes\":[", tid, seqno++, idx);
+	log_masked (o, &d, 1);
+	fputs ("]}\n", o);
+	pixman_image_unref (sol);
+	pixman_image_unref (d.img);
+	free (d.bits);
+    }
+    else if (r->kind == 'R')
+    {
+	/* R: kind dfmt dw dh n seed op
+	 * 0 pixman_rasterize_trapezoid (n calls), 1 pixman_add_traps, 2 pixman_add_triangles (alpha-only destinations),
+	 * 3 pixman_composite_trapezoids with operator op and an a1 / a8 mask format (by seed), 4 pixman_composite_triangles */
+	int rk = (int)f[0], dw = (int)f[2], dh = (int)f[3], n = (int)f[4], op = (int)f[6];
+	pixman_format_code_t dfmt = (pixman_format_code_t)f[1];
+	img_t d;
+	pixman_trapezoid_t tr[32];
+	pixman_triangle_t tri[32];
+	pixman_trap_t tp[32];
+	vrng_seed (&rng, (uint64_t)f[5]);
+	make_bits (&d, dfmt, dw, dh, 0, &rng, 0);
+	if (n > 32) n = 32;
+	random_traps (tr, n, dw, dh, &rng);
+	for (i = 0; i < n; i++)
+	{
+	    pixman_fixed_t l = (pixman_fixed_t)vrng_below (&rng, dw * 65536), t = (pixman_fixed_t)vrng_below (&rng, dh * 65536);
+	    tri[i].p1.x = (pixman_fixed_t)vrng_below (&rng, dw * 65536); tri[i].p1.y = (pixman_fixed_t)vrng_below (&rng, dh * 65536);
+	    tri[i].p2.x = (pixman_fixed_t)vrng_below (&rng, dw * 65536); tri[i].p2.y = (pixman_fixed_t)vrng_below (&rng, dh * 65536);
+	    tri[i].p3.x = (pixman_fixed_t)vrng_below (&rng, dw * 65536); tri[i].p3.y = (pixman_fixed_t)vrng_below (&rng, dh * 65536);
+	    tp[i].top.l = l; tp[i].top.r = l + 1 + (pixman_fixed_t)vrng_below (&rng, 6 * 65536); tp[i].top.y = t;
+	    tp[i].bot.l = l + (pixman_fixed_t)vrng_below (&rng, 131072) - 65536;
+	    tp[i].bot.r = tp[i].bot.l + 1 + (pixman_fixed_t)vrng_below (&rng, 6 * 65536);
+	    tp[i].bot.y = t + 1 + (pixman_fixed_t)vrng_below (&rng, 3 * 65536);
+	}
+	if (rk == 0)
+	    for (i = 0; i < n; i++)
+		pixman_rasterize_trapezoid (d.img, &tr[i], (int)vrng_below (&rng, 3) - 1, 0);
+	else if (rk == 1)
+	    pixman_add_traps (d.img, 1, 0, n, tp);
+	else if (rk == 2)
+	    pixman_add_triangles (d.img, 0, 0, n, tri);
+	else
+	{
+	    pixman_color_t c;
+	    pixman_image_t *sol;
+	    pixman_format_code_t mf = vrng_below (&rng, 3) ? PIXMAN_a8 : PIXMAN_a1;
+	    random_color (&c, &rng, 0);
+	    sol = pixman_image_create_solid_fill (&c);
+	    if (rk == 3)
+		pixman_composite_trapezoids ((pixman_op_t)op, sol, d.img, mf, 0, 0, 0, 0, n, tr);
+	    else
+		pixman_composite_triangles ((pixman_op_t)op, sol, d.img, mf, 0, 0, 0, 0, n, tri);
+	    pixman_image_unref (sol);
+	}
+	fprintf (o, "{\"e\":\"Res\",\"tid\":%d,\"seq\":%d,\"req\":%d,\"kind\":\"C\",\"ret\":true,\"bytes\":[", tid, seqno++, idx);
+	log_masked (o, &d, 1);
+	fputs ("]}\n", o);
+	pixman_image_unref (d.img);
+	free (d.bits);
+    }
+}
+
 static void
 run_request (int idx)
 {
@@ -477,6 +786,11 @@ run_request (int idx)
     vrng_t rng;
     long long *f = r->f;
 
+    if (r->kind == 'L' || r->kind == 'G' || r->kind == 'R')
+    {
+	run_api_request (idx);
+	return;
+    }
     if (r->kind == 'C')
     {
 	/* op sfmt sw sh srep sfilt t0..t5 mfmt mw mh mrep mca dfmt dw dh sx sy mx my dx dy w h seed sopaque */
@@ -723,6 +1037,11 @@ thread_main (void *arg)
     seqno = 0;
     for (i = k - 1; i < nreqs; i += nthreads)
 	run_request (i);
+    if (gcache)
+    {
+	pixman_glyph_cache_destroy (gcache);
+	gcache = NULL;
+    }
     fclose (tout);
     tout = NULL;
     return NULL;
